@@ -87,13 +87,20 @@ CancelSet(e, x) == { m \in { CancelQuot(e, x, k) : k \in Keys(x) } :
 
 (* a rate constant is a monomial like an equilibrium constant; rate names are not base names *)
 RateNames == {"kf", "kb"}
+ReservedNames == RateNames \cup {"c0"}
 Unit(name) == [b \in {name} |-> 1]
-AsRx(e, which) ==
+(* With a units module the constant refers to the standard concentration c0: kf / kb =        *)
+(* K * c0^(nb - nf), nb / nf = sums of the product / reactant coefficients.  c0 is one more    *)
+(* formal base ("c0" when a units module is given, absent = 1 otherwise).                      *)
+SumMap(f) == FoldSet(LAMBDA s, acc : acc + f[s], 0, DOMAIN f)
+Kc(e, c0) == IF c0 = "c0" THEN AddMaps(e.kexp, NonZero(ScaleMap(Unit("c0"), SumMap(e.prod) - SumMap(e.reac))))
+             ELSE e.kexp
+AsRx(e, which, c0) ==
     IF which = "kf"
     THEN [fw |-> [reac |-> e.reac, prod |-> e.prod, kexp |-> Unit("kf")],
           bw |-> [reac |-> e.prod, prod |-> e.reac,
-                  kexp |-> AddMaps(Unit("kf"), ScaleMap(e.kexp, -1))]]
-    ELSE [fw |-> [reac |-> e.reac, prod |-> e.prod, kexp |-> AddMaps(Unit("kb"), e.kexp)],
+                  kexp |-> AddMaps(Unit("kf"), ScaleMap(Kc(e, c0), -1))]]
+    ELSE [fw |-> [reac |-> e.reac, prod |-> e.prod, kexp |-> AddMaps(Unit("kb"), Kc(e, c0))],
           bw |-> [reac |-> e.prod, prod |-> e.reac, kexp |-> Unit("kb")]]
 
 ------------------------------------------------------------------------------
@@ -111,7 +118,7 @@ HasEffect(e) == \E s \in Keys(e) : NetAt(e, s) # 0
 
 (* Load base b (contents eq) into register r *)
 Load(r, b, eq) ==
-    /\ phase = "run" /\ r \in Regs /\ b \notin RateNames
+    /\ phase = "run" /\ r \in Regs /\ b \notin ReservedNames
     /\ IsStoich(eq.reac) /\ IsStoich(eq.prod) /\ HasEffect(eq)
     /\ (b \in DOMAIN cat => (cat[b].reac = eq.reac /\ cat[b].prod = eq.prod))
     /\ LET e == [reac |-> eq.reac, prod |-> eq.prod, kexp |-> Unit(b), kind |-> "base"]
@@ -177,12 +184,12 @@ Cancel(r, q, m) ==
 AsReactionsRefused(r, which) ==
     /\ phase = "run" /\ r \in Regs /\ Loaded(regs[r]) /\ which \in {"both", "none"}
     /\ Observe([op |-> "asrx-refused", which |-> which],
-               [op |-> "AsReactions", r |-> r, which |-> which])
+               [op |-> "AsReactions", r |-> r, which |-> which, c0 |-> "one"])
 
-AsReactions(r, which) ==
-    /\ phase = "run" /\ r \in Regs /\ Loaded(regs[r]) /\ which \in RateNames
-    /\ Observe([op |-> "asrx", which |-> which, rx |-> AsRx(regs[r], which), K |-> regs[r].kexp],
-               [op |-> "AsReactions", r |-> r, which |-> which])
+AsReactions(r, which, c0) ==
+    /\ phase = "run" /\ r \in Regs /\ Loaded(regs[r]) /\ which \in RateNames /\ c0 \in {"one", "c0"}
+    /\ Observe([op |-> "asrx", which |-> which, rx |-> AsRx(regs[r], which, c0), K |-> Kc(regs[r], c0)],
+               [op |-> "AsReactions", r |-> r, which |-> which, c0 |-> c0])
 
 ------------------------------------------------------------------------------
 (* bounded generation *)
@@ -211,7 +218,7 @@ GenCancel == \E r \in Regs, q \in Regs :
     /\ CancelDefined(regs[r], regs[q])
     /\ Cancel(r, q, CHOOSE m \in CancelSet(regs[r], regs[q]) : TRUE)
 GenAsReactions == \E r \in Regs : Room /\ "asrx" \in Queries /\
-    ((\E w \in RateNames : AsReactions(r, w)) \/ (\E w \in {"both", "none"} : AsReactionsRefused(r, w)))
+    ((\E w \in RateNames, c0 \in {"one", "c0"} : AsReactions(r, w, c0)) \/ (\E w \in {"both", "none"} : AsReactionsRefused(r, w)))
 
 Next == GenLoad \/ GenScale \/ GenNeg \/ GenCopy \/ GenAdd \/ GenSub \/ GenEliminate \/ GenCancel \/ GenAsReactions
 
@@ -244,6 +251,11 @@ ElimFree == out.op = "elim" =>
 RatesRatio == out.op = "asrx" =>
     /\ AddMaps(out.rx.fw.kexp, ScaleMap(out.rx.bw.kexp, -1)) = out.K
     /\ out.rx.fw.reac = out.rx.bw.prod /\ out.rx.fw.prod = out.rx.bw.reac
+    /\ LET h == hist[Len(hist)]  e == regs[h.r]
+           ratio == AddMaps(out.rx.fw.kexp, ScaleMap(out.rx.bw.kexp, -1))
+       IN  /\ \A b \in DOMAIN cat : Get(ratio, b) = Get(e.kexp, b)          \* the constant itself
+           /\ Get(ratio, "c0") = (IF h.c0 = "c0" THEN SumMap(e.prod) - SumMap(e.reac) ELSE 0)
+           /\ DOMAIN ratio \subseteq DOMAIN cat \cup {"c0"}
 (* the canonical multipliers are a solution for every pair of non-zero coefficients *)
 CanonOK == \A v1, v2 \in (-6..6) \ {0} : ElimOK(CanonMult(v1, v2)[1], CanonMult(v1, v2)[2], v1, v2)
 (* cancelling never overshoots a species of the other equilibrium that it is reducing *)
